@@ -24,6 +24,7 @@ ASSUMPTIONS = ['the random-generator state (random, numpy.random) is saved next 
 CLASSES = {
     'boundaries': {'quick': 192, 'thorough': 1800},
     'copies': {'quick': 96, 'thorough': 1000},
+    'final_dump': {'quick': 120, 'thorough': 1500},
     'sigkill': {'quick': 24, 'thorough': 240},
 }
 MIN_EVENTS = {'quick': {'restore_points': 300, 'assert:resume': 1500, 'assert:indep': 150}}
@@ -187,6 +188,56 @@ def run_boundaries(rng, obs, tmp):
     obs.notes = {'steps': N, 'restore_points': points, 'save': cfg['save']}
 
 
+def run_final_dump(rng, obs, tmp):
+    """the restart file a solver writes by itself when it STOPS (it has a registered restart file): the restored solver equals the stopped
+    one and, after the limits are raised on both, continues exactly like it from the same random state"""
+    from mystic.solvers import LoadSolver
+    from mystic.termination import ChangeOverGeneration
+    cfg = gen_cfg(rng)
+    cfg['save'] = 'frequency'; cfg['restore'] = 'LoadSolver'
+    cfg['freq'] = rng.choice([1, 2, 3, 5, 50])          # also frequencies that never fire before the stop: the final dump is forced
+    G = rng.randint(2, 7)
+    obs.desc = dict(cfg, stop_after=G)
+    probe = K.CostProbe(K.make_cost(cfg['cost']))
+    s = build(cfg, tmp, probe)
+    kw = K.step_kwargs(cfg)
+    fn = os.path.join(tmp, 'final.pkl')
+    s.SetSaveFrequency(cfg['freq'], fn)
+    s.SetEvaluationLimits(G, 10 ** 8)
+    msg = None
+    for _ in range(G + 3):
+        msg = s.Step(**kw)
+        if msg: break
+    if not msg or not os.path.exists(fn):
+        obs.skip('the run did not stop / no restart file'); return
+    st = rng_get()
+    try:
+        r = LoadSolver(fn)
+    except Exception as e:
+        obs.violation('resume:restore failed', k='final', save='final dump', error=repr(e)[:200], solver=cfg['solver']); return
+    rng_set(st)
+    a, b = full_state(s), full_state(r)
+    d = first_diff(a, b)
+    obs.check(d is None, 'resume:restored state equals the saved state', k='final', field=d, save='final dump', solver=cfg['solver'],
+              observed=str(b.get(d))[:300], expected=str(a.get(d))[:300])
+    obs.event('restore_points')
+    m = rng.randint(2, 5)
+    traj = []
+    for x in (s, r):
+        rng_set(st)
+        x.SetEvaluationLimits(G + m + 5, 10 ** 8)
+        t = []
+        for _ in range(m):
+            x.Step(**kw); t.append(full_state(x))
+        traj.append(t)
+    first = next((j for j, (u, v) in enumerate(zip(*traj)) if u != v), None)
+    obs.check(first is None, 'resume:continuing the restored solver reproduces the uninterrupted run', k='final', step=first, save='final dump', restore='LoadSolver',
+              solver=cfg['solver'], field=None if first is None else first_diff(traj[0][first], traj[1][first]), box=bool(cfg.get('box')))
+    obs.event('assert:resume', m)
+    obs.nontrivial = traj[0][-1]['best'] != a['best'] or traj[0][-1]['gens'] > a['gens']
+    obs.notes = {'stopped_at': a['gens'], 'continued': m}
+
+
 def run_copies(rng, obs, tmp):
     """deep copies (and dill round trips) of a live solver are independent and keep counting their own evaluations"""
     import dill
@@ -317,6 +368,6 @@ def run_case(cls, idx, rng, obs):
     tmp = os.path.join(env.OUT, 'c06', '%s-%d-%d' % (cls, idx, os.getpid()))
     os.makedirs(tmp, exist_ok=True)
     try:
-        return {'boundaries': run_boundaries, 'copies': run_copies, 'sigkill': run_sigkill}[cls](rng, obs, tmp)
+        return {'boundaries': run_boundaries, 'copies': run_copies, 'sigkill': run_sigkill, 'final_dump': run_final_dump}[cls](rng, obs, tmp)
     finally:
         shutil.rmtree(tmp, ignore_errors=True)
